@@ -21,7 +21,33 @@ let read_lines f =
   let rec go acc = match input_line ic with l -> go (l :: acc) | exception End_of_file -> close_in ic; List.rev acc in
   go []
 
-let () =
+let hex_of l = if l = [] then "" else String.concat "" (List.map (fun n -> Printf.sprintf "%02x" (int_of_n n)) l)
+
+let langs = [LBash; LPosix; LMksh; LBats; LZsh]
+
+(* -unq CASES: lines "<hex q> g0 g1 g2 g3 g4 bash dash", g = W:<hex> | N, bash/dash = W:<hex> | ?
+   whenever the model's unquote gives Some t, the Go parser+expander (and the shell, if it ran) must give t.
+   output: "U <line> <lang>" Go differs, "B <line>" bash differs, "D <line>" dash differs, "some <n>", "done <n>" *)
+let unq_main file =
+  let n = ref 0 and some = ref 0 in
+  List.iteri (fun i line ->
+    match String.split_on_char ' ' line with
+    | qh :: rest when List.length rest = 7 ->
+      incr n;
+      let q = unhex qh in
+      List.iteri (fun li l ->
+        match unquote l q with
+        | Some t ->
+          incr some;
+          let want = "W:" ^ hex_of t in
+          if List.nth rest li <> "?" && List.nth rest li <> want then Printf.printf "U %d %d\n" i li;
+          if li = 0 && List.nth rest 5 <> "?" && List.nth rest 5 <> want then Printf.printf "B %d\n" i;
+          if li = 1 && List.nth rest 6 <> "?" && List.nth rest 6 <> want then Printf.printf "D %d\n" i
+        | None -> ()) langs
+    | _ -> Printf.printf "U %d -1\n" i) (read_lines file);
+  Printf.printf "some %d\ndone %d\n" !some !n
+
+let quote_main () =
   let table = Array.of_list (List.map (fun l -> Scanf.sscanf l "%d %d" (fun a b -> (a, b))) (read_lines Sys.argv.(1))) in
   let is_print_int x =
     let rec go lo hi = if lo >= hi then false else
@@ -30,7 +56,6 @@ let () =
       if x < a then go lo m else if x > b then go (m + 1) hi else true in
     go 0 (Array.length table) in
   let is_print n = is_print_int (int_of_n n) in
-  let langs = [LBash; LPosix; LMksh; LBats; LZsh] in
   let n = ref 0 in
   List.iteri (fun i line ->
     match String.split_on_char ' ' line with
@@ -52,3 +77,5 @@ let () =
       if not !rt then Printf.printf "R %d\n" i
     | _ -> Printf.printf "M %d\n" i) (read_lines Sys.argv.(2));
   Printf.printf "done %d\n" !n
+
+let () = if Sys.argv.(1) = "-unq" then unq_main Sys.argv.(2) else quote_main ()
